@@ -18,7 +18,7 @@ PROP = dict(
     jobs=dict(
         quick=[job("lnwallet", "^TestVerifC05", ["TestVerifC05Closes"], 25, shards=8, timeout=900,
                    env=dict(VERIF_STEPS=30, VERIF_C05_EVERY=3))],
-        thorough=[job("lnwallet", "^TestVerifC05", ["TestVerifC05Closes"], 200, shards=16, timeout=3000,
+        thorough=[job("lnwallet", "^TestVerifC05", ["TestVerifC05Closes"], 130, shards=16, timeout=3000,
                       env=dict(VERIF_STEPS=80, VERIF_C05_EVERY=2))],
     ),
     also=["C01"],
